@@ -41,6 +41,8 @@ pub fn generate(r: &mut Prng, seed: u64, run: u64) -> Scenario {
     let mut spec = ReplicaSpec::draw(r, path);
     if spec.uses_text() {
         facts.version = (facts.version.0 % 10_000, facts.version.1 % 100, facts.version.2 % 100);
+    } else if r.chance(1, 3) {
+        facts.pad_some_names(r);
     }
     let mut sub = None;
     if r.chance(1, 12) {
@@ -88,7 +90,8 @@ fn name_ok(a: &str, b: &str) -> bool {
     if a.len() <= 255 {
         return a == b;
     }
-    a.starts_with(b) && b.len() <= 255 && b.len() > 251
+    // the documented cut: the first 255 bytes, backed off to the previous character boundary
+    b == crate::facts::cut255(a)
 }
 
 /// Replace over-long names in `a` by what `b` shows, if `b`'s value is an acceptable truncation
